@@ -59,6 +59,11 @@ func (g *c14Graph) absval(st *c14Store, ctx *c14Ctx, e ast.Expr) int8 {
 			}
 		}
 		return 0
+	case *ast.SelectorExpr:
+		if k, ok := g.fieldKey(ctx, x); ok {
+			return st.m[k]
+		}
+		return 0
 	case *ast.UnaryExpr:
 		switch x.Op {
 		case token.NOT:
@@ -209,11 +214,9 @@ func (g *c14Graph) learn(st *c14Store, ctx *c14Ctx, e ast.Expr, val bool) *c14St
 	e = ast.Unparen(e)
 	return st.with(func(m map[string]int8) {
 		switch x := e.(type) {
-		case *ast.Ident:
-			if o := objOf(info, x); o != nil {
-				if k, ok := g.trackable(ctx, o); ok {
-					m[k] = c14Bool(val)
-				}
+		case *ast.Ident, *ast.SelectorExpr:
+			if k, ok := g.lvalKey(ctx, x.(ast.Expr)); ok {
+				m[k] = c14Bool(val)
 			}
 		case *ast.BinaryExpr:
 			if x.Op == token.EQL || x.Op == token.NEQ {
@@ -224,13 +227,11 @@ func (g *c14Graph) learn(st *c14Store, ctx *c14Ctx, e ast.Expr, val bool) *c14St
 					other = x.Y
 				}
 				if other != nil {
-					if o := objOf(info, other); o != nil {
-						if k, ok := g.trackable(ctx, o); ok {
-							if (x.Op == token.EQL) == val {
-								m[k] = c14Nil
-							} else {
-								m[k] = c14NonNil
-							}
+					if k, ok := g.lvalKey(ctx, other); ok {
+						if (x.Op == token.EQL) == val {
+							m[k] = c14Nil
+						} else {
+							m[k] = c14NonNil
 						}
 					}
 					return
@@ -260,6 +261,10 @@ func c14ZeroVal(t types.Type) int8 {
 
 // transfer applies the effect of executing a plain node on the local variables of the store.
 func (g *c14Graph) transfer(st *c14Store, n *c14Node) *c14Store {
+	return g.transferStructs(st, g.transferScalars(st, n), n)
+}
+
+func (g *c14Graph) transferScalars(st *c14Store, n *c14Node) *c14Store {
 	ctx := n.ctx
 	info := ctx.fn.info
 	type wr struct {
